@@ -128,6 +128,63 @@ Theorem C08_local_markov_sound : forall g v x, wf_graph g -> acyclic g -> In v (
 Proof. exact local_markov_sound. Qed.
 Print Assumptions C08_local_markov_sound.
 
+(* get_immoralities(): {u, v} is listed iff u, v are distinct, joined by no edge, and share a child *)
+Theorem C08_immoralities : forall g u v, wf_graph g -> NoDup (edges g) ->
+  ((In (u, v) (immoralities g) \/ In (v, u) (immoralities g)) <->
+   u <> v /\ ~ adj g u v /\ exists c, In (u, c) (edges g) /\ In (v, c) (edges g)).
+Proof. exact immoralities_spec. Qed.
+Print Assumptions C08_immoralities.
+
+(* the moral graph is the skeleton plus the immoralities *)
+Theorem C08_moral_is_skeleton_plus_immoralities : forall g u v, wf_graph g -> acyclic g -> NoDup (edges g) ->
+  ((In (u, v) (moral_edges g) \/ In (v, u) (moral_edges g)) <->
+   adj g u v \/ In (u, v) (immoralities g) \/ In (v, u) (immoralities g)).
+Proof. exact moral_is_skeleton_or_immorality. Qed.
+Print Assumptions C08_moral_is_skeleton_plus_immoralities.
+
+(* why the parents of a common child are married: observing the child (the collider) connects them *)
+Theorem C08_common_child_dconnected : forall g Z u v c,
+  In (u, c) (edges g) -> In (v, c) (edges g) -> In c Z -> dconnected g Z u v.
+Proof. exact common_child_dconnected. Qed.
+Print Assumptions C08_common_child_dconnected.
+
+(* ================================================================== 2b. edits of one graph object
+   Every answer above is a function of the CURRENT graph value (the correspondence run edits one pgmpy
+   object through every mutator and compares with the model on the current nodes and edges).  What the
+   removal edits do to the answers: *)
+
+(* d-connection is monotone in the edge set (inside an acyclic graph) *)
+Theorem C08_dconnected_monotone_in_edges : forall g g' Z x y,
+  acyclic g -> incl (edges g') (edges g) -> dconnected g' Z x y -> dconnected g Z x y.
+Proof. exact dconnected_incl. Qed.
+Print Assumptions C08_dconnected_monotone_in_edges.
+
+(* remove_edge(s), do(..., inplace=True) and remove_node are characterised ... *)
+Theorem C08_removal_edits : forall g, wf_graph g ->
+  (forall es, wf_graph (remove_edges g es) /\
+     forall u v, In (u, v) (edges (remove_edges g es)) <-> In (u, v) (edges g) /\ ~ In (u, v) es) /\
+  (forall ns, wf_graph (do_graph g ns) /\ (forall x, In x ns -> parents (do_graph g ns) x = []) /\
+     forall u v, In (u, v) (edges (do_graph g ns)) <-> In (u, v) (edges g) /\ ~ In v ns) /\
+  (forall w, wf_graph (remove_node g w) /\
+     (forall n, In n (nodes (remove_node g w)) <-> In n (nodes g) /\ n <> w) /\
+     forall u v, In (u, v) (edges (remove_node g w)) <-> In (u, v) (edges g) /\ u <> w /\ v <> w).
+Proof.
+  intros g Hw. split; [|split].
+  - intros es. split; [exact (wf_remove_edges g es Hw)|exact (remove_edges_In g es)].
+  - intros ns. split; [exact (wf_do_graph g ns Hw)|]. split; [exact (do_graph_no_parents g ns)|exact (do_graph_In g ns)].
+  - intros w. split; [exact (wf_remove_node g w Hw)|]. split; [exact (remove_node_nodes_In g w)|exact (remove_node_edges_In g w)].
+Qed.
+Print Assumptions C08_removal_edits.
+
+(* ... and can only remove nodes from an active-trail answer, never add one *)
+Theorem C08_removals_only_disconnect : forall g x Z y,
+  wf_graph g -> acyclic g -> In x (nodes g) -> ~ In x Z ->
+  (forall es, In y (active_trail_nodes (remove_edges g es) x Z) -> In y (active_trail_nodes g x Z)) /\
+  (forall ns, In y (active_trail_nodes (do_graph g ns) x Z) -> In y (active_trail_nodes g x Z)) /\
+  (forall w, w <> x -> In y (active_trail_nodes (remove_node g w) x Z) -> In y (active_trail_nodes g x Z)).
+Proof. exact removals_only_disconnect. Qed.
+Print Assumptions C08_removals_only_disconnect.
+
 (* ================================================================== 3. minimal_dseparator *)
 
 (* ValueError exactly for adjacent end points *)
@@ -236,3 +293,14 @@ Proof. vm_compute. split; reflexivity. Qed.
 Example ex_lat_step_order_dependent :
   lat_step ex_chain [0; 1] [0; 1] [0; 1] = [0] /\ lat_step ex_chain [0; 1] [1; 0] [0; 1] = [].
 Proof. vm_compute. split; reflexivity. Qed.
+
+(* immoralities and edits on the collider example: 0 and 1 are an immorality; removing the edge 2 -> 3
+   closes the trail that observing 3 had opened (a stale ancestor set of {3} would keep it open) *)
+Example ex_collider_immoralities : immoralities ex_collider = [(0, 1)].
+Proof. vm_compute. reflexivity. Qed.
+Example ex_collider_edit :
+  In 1 (active_trail_nodes ex_collider 0 [3]) /\
+  active_trail_nodes (remove_edges ex_collider [(2, 3)]) 0 [3] = [2; 0] /\
+  active_trail_nodes (do_graph ex_collider [3]) 0 [3] = [2; 0] /\
+  active_trail_nodes (remove_node ex_collider 2) 0 [3] = [0].
+Proof. vm_compute. tauto. Qed.
